@@ -220,6 +220,10 @@ func runOne(r *hxlib.Run, s sc, mutants bool) {
 }
 
 func main() {
+	if hxconn.IsL5Child() {
+		hxconn.L5ChildMain()
+		return
+	}
 	if hxconn.IsChild() {
 		hxconn.ChildMain()
 		return
@@ -232,8 +236,13 @@ func main() {
 		hxconn.Deadline = 10 * time.Second
 	}
 	if r.Replay != "" {
-		var s sc
-		r.LoadReplay(&s)
+		var c5 replay5
+		r.LoadReplay(&c5)
+		if c5.Legs5 != nil {
+			replayLegs5(r, *c5.Legs5)
+			return
+		}
+		s := c5.Scenario
 		reps := 5 // (a free-running scenario is not a function of its description alone: look again before giving up)
 		if s.Peer.Tail == "stall" {
 			qnet.TConnReadTimeout = 1 // the peer stalls 1.4 s in the middle of a frame
@@ -249,6 +258,13 @@ func main() {
 			}
 			runOne(r, s, false)
 		}
+		return
+	}
+	// fifth-wave legs first (child processes only): a pump that starts late and touches a torn-down connection kills
+	// the process it runs in — in the in-process scenarios below that is this harness, and the result file with it
+	legs5(r)
+	if r.Failed() {
+		r.Note("the fifth-wave legs (child processes) found a failing input; the in-process generators were not run")
 		return
 	}
 	if r.Search {
